@@ -1362,9 +1362,23 @@ def run_path(fn: Callable, params: dict, prefix: list, opts: Options, want_witne
             c.notes.append("feasibility-unknown")
             witness = None
     elif status == "outside":
-        r = c.check_all(opts.branch_timeout_ms)[0] if c.nonlinear else c._check(timeout_ms=opts.branch_timeout_ms)
+        if c.nonlinear:
+            r, witness = c.check_all(opts.branch_timeout_ms, want_model=want_witness, nice=True)
+            if r != z3.sat:
+                r, witness = c.check_all(opts.branch_timeout_ms, want_model=want_witness)
+            else:
+                nice = True
+        else:
+            r = c._check(timeout_ms=opts.branch_timeout_ms)
+            if r == z3.sat and want_witness:
+                witness = c.model_dict(c.solver.model())
+                box = c._nice_box()
+                if box and c.solver.check(*box) == z3.sat:
+                    witness, nice = c.model_dict(c.solver.model()), True
         if r == z3.unsat:
             status = "abort"
+        if r != z3.sat:
+            witness = None
     outs = {k: _render(v, c) for k, v in c.outputs.items()} if status == "ok" else None
     pr = PathResult(status, c.trace, c.obligations, c.notes, c.queries, c.solver_s, len(c.trace), witness, outs, msg, c.unknown_branches, c.nonlinear)
     pr.witness_nice = nice
